@@ -4,9 +4,10 @@ spec/Aggregator/Aggregator.tla enumerates source scripts, consumer accesses and 
 edge of the dumped state graphs is replayed on the real cocls::generator_aggregator over scripted source generators
 by harness/aggregator_replay.cpp (each path in several consumer implementations / access styles)."""
 import os
+import threading
 
 import vlib
-from framework import graph_replay
+from framework import Ctx, graph_replay
 
 MERGE = r"(AggStart|AggInit|AggResume|AggLoop|AggGot|AggEnd|SrcStep|Push|Drain)$"
 PLAIN = ("alive", "ast", "cscript", "obs", "queue", "waiter")
@@ -109,7 +110,54 @@ THR_MODES = ["thr_late/sync/fc", "thr_early/iter/cf", "thr_early/sync/cf", "thr_
 ARGK = '{"ynull", "yield", "apend", "throw", "return"}'
 
 
+class ConcJob:
+    """conc_replay on a context of its own (own seeded generator: the paths chosen do not depend on how the two flows
+    interleave) on a background thread, while the sequential graphs are replayed; merge() joins, re-raises and adds
+    its results to the check's context"""
+    def __init__(self, ctx):
+        self.sub = Ctx(ctx.prop, ctx.tier, ctx.seed)
+        self.exc = None
+
+        def body():
+            try:
+                conc_replay(self.sub)
+            except BaseException as e:   # noqa: B902 -- handed to the main thread
+                self.exc = e
+        self.th = threading.Thread(target=body, daemon=True)
+        self.th.start()
+
+    def merge(self, ctx):
+        self.th.join()
+        sub = self.sub
+        ctx.states += sub.states
+        ctx.transitions += sub.transitions
+        ctx.traces += sub.traces
+        ctx.steps += sub.steps
+        ctx.models += sub.models
+        ctx.violations += sub.violations
+        ctx.exhaustive = ctx.exhaustive and sub.exhaustive
+        for h in sub.known_hits:
+            if h["key"] not in [x["key"] for x in ctx.known_hits]:
+                ctx.known_hits.append(h)
+        for smp in sub.samples[:1]:
+            if len(ctx.samples) >= 6:
+                ctx.samples.pop()
+            ctx.samples.append(smp)
+        for a in sub.assumptions:
+            ctx.assume(a)
+        if self.exc is not None:
+            raise self.exc
+
+
 def run(ctx):
+    conc = ConcJob(ctx)
+    try:
+        run_sequential(ctx)
+    finally:
+        conc.merge(ctx)
+
+
+def run_sequential(ctx):
     rp = vlib.compile_harness(vlib.VERIF + "/harness/aggregator_replay.cpp", "aggregator_replay", sanitize=not ctx.quick)
     q = ctx.quick
     # (cfg, tag, with argument, modes, must_take extras, constants quick, constants thorough); None: tier skips the job
@@ -168,7 +216,6 @@ def run(ctx):
             res = ctx.tlc("Aggregator", "Aggregator", path, "sim%d" % ns, workers=4, simulate="num=30000", depth=200)
             if res.violation:
                 ctx.tlc_violation(res, "Aggregator:sim%d" % ns)
-    conc_replay(ctx)
     ctx.assume("values are (source, sequence number) pairs encoded as 100*s+j; access i passes 100+i; operation k completes with k")
     ctx.assume("controller::_count lives in the aggregate's coroutine frame and is not observable from outside: it is bound through "
                "behaviour (end reported / access hanging / drain blocking) and the observable queue content, not by direct comparison")
